@@ -1,8 +1,10 @@
 //go:build verif
 
-// C19 harness: one replication round. Runs the real diffACLType /
-// diffConfigEntries and then applies the computed deletions and upserts to a real
-// FSM/state store with the same Raft commands the replicator sends, printing
+// C19 harness, walk-level part (the round-level part, which executes the real
+// replicateConfig / replicateACLType between two real servers, is round.go): runs the
+// real diffACLType / diffConfigEntries on lists that need not come out of a store
+// (legacy empty IDs, zero hashes, arbitrary ModifyIndexes) and then applies the
+// computed deletions and upserts to a real FSM/state store, printing
 //   d=<deleted ids> u=<upserted ids> ls=<n> rs=<n> final=<id;val ...>
 // for the Lean model (CV.Repl) to reproduce. Monitor (model independent): when the
 // generated case satisfies the round's preconditions, the resulting replicated set
@@ -62,7 +64,7 @@ func apply(f *fsm.FSM, idx uint64, t structs.MessageType, req any) any {
 func encItems(xs []item) string {
 	t := make([]string, len(xs))
 	for i, x := range xs {
-		t[i] = fmt.Sprintf("%s;%d;%s;%d", hx.EncS(x.id), x.mod, "x"+hex.EncodeToString(x.hash), x.val)
+		t[i] = fmt.Sprintf("%s;%d;%s;%d;1", hx.EncS(x.id), x.mod, "x"+hex.EncodeToString(x.hash), x.val)
 	}
 	return hx.EncList(t)
 }
@@ -607,7 +609,7 @@ func encFinalRows(rows []row) string {
 
 func main() {
 	run := hx.Start()
-	run.Rule = "one case = (kind, last index, local list, remote list) drawn from an 8-id pool with 3 contents; distinct by the full op line; non-trivial = the round computes at least one deletion or upsert"
+	run.Rule = "one case = (kind, last index[, remote index], local list, remote list); walk-level cases (ops acl/cfg) draw from an 8-id pool with 3 contents, round-level cases (ops racl/rcfg) run one real replication round between two real servers over pools of case-variant spellings; distinct by the full op line; non-trivial = the round computes at least one deletion or upsert"
 	n := run.Scale(400, 6000)
 	for i := 0; i < n; i++ {
 		r := run.RNG.Fork(uint64(i))
@@ -623,5 +625,6 @@ func main() {
 			runCfg(run, r, consistent)
 		}
 	}
+	runRounds(run)
 	run.Finish()
 }
